@@ -2190,3 +2190,53 @@ def r10(cx):
 
 # --- explanation addendum (generated catalogue in DESIGN.md reads RS.explanation)
 RS.explanation += ' Added later: PATH candidates must be regular files with an execute permission on both systems (R1b); a while/until loop records $? of a body run ended by `continue` (R5d); a source without commands resets $? (R10).'
+
+
+# ---------------------------------------------------------------------------------------
+# added after seed wave 3 (C10-s5: the status of a command without a command name)
+@RS.rule('C02.R11', 'K-GUARD', 'a simple command without a command name ends with the status of the LAST command substitution performed '
+         '(POSIX 2.9.1): over several assignments the status is folded - an assignment without a command substitution never erases the '
+         'status an earlier one produced (`a=$(false) b=plain` is 1, and stops the shell under errexit)')
+def r11(cx):
+    F = cx.F
+    fn = 'yash_semantics::assign::perform_assignments'
+    body = F.main_body(fn)
+    cx.fn(body.fn)
+    du = Q.DefUse(body)
+    calls = Q.find_calls(body, ['yash_semantics::assign::perform_assignment'])
+    cx.require(calls, 'perform_assignments no longer calls perform_assignment')
+    # the accumulator: the local whose value is returned in Ok(..)
+    acc = None
+    for blk, j, st in body.stmts():
+        if st['k'] == 'assign' and not st['lhs'].get('p') and st['lhs']['l'] == 0 and st['rv']['k'] == 'agg' \
+                and st['rv'].get('variant') in (0, 'Ok') and st['rv'].get('ops'):
+            o = du.origin(st['rv']['ops'][0])
+            if o['k'] == 'place' and not o['pl'].get('p'):
+                acc = o['pl']['l']
+    cx.require(acc is not None, 'the status returned by perform_assignments is not an accumulator local (shape changed: review)')
+    from_acc = Q.forward_taint(body, {acc})
+    n = 0
+    for blk, idx, node in du.defs.get(acc, []):
+        if idx == 't':
+            rhs_locals = {Q.operand_local(a) for a in node['a']}
+            is_init = False
+        else:
+            rv = node['rv']
+            is_init = rv['k'] == 'agg' and rv.get('variant') in (0, 'None') and not rv.get('ops')
+            rhs_locals = {p['l'] for p in Q.rvalue_places(rv)}
+        if is_init:
+            continue
+        n += 1
+        folds = any(l in from_acc for l in rhs_locals if l is not None and l != acc)
+        from_result = Q.forward_taint(body, {t['dest']['l'] for b, t in calls})
+        guarded = any(org['k'] == 'discr' and lab == ('variant', 'Some') and org['pl']['l'] in from_result
+                      for org, lab, e in Q.implied_conditions(F, body, du, blk))
+        cx.site('perform_assignments: status updated at %s: folds the previous status: %s; only on a Some result: %s' % (body.loc(node), folds, guarded))
+        if not (folds or guarded):
+            cx.violation(fn, 'status-overwritten-by-later-assignment', 'the status of the assignments is overwritten by every assignment, also '
+                         'by one that performs no command substitution (None): `a=$(false) b=plain` then ends with status 0 instead of 1 and '
+                         'does not stop the shell under errexit (POSIX: the status of the last command substitution performed)', loc=body.loc(node))
+    cx.require(n >= 1, 'perform_assignments never updates its status accumulator')
+
+
+RS.explanation += ' The status of a command without a command name is folded over its assignments (R11).'
